@@ -31,6 +31,18 @@ import Isotp.Frame
     `update`, `inform`, `reset` (`wf_reset`, `wf_update`, `wf_inform`, `wf_default`).  `update_run` describes the run WITHOUT the hypothesis
     (integer-valued `bit_total`, `expireZ`), `update_agrees` is the agreement under `WF`, and `update_needs_WF` is a witness that the
     agreement fails without it.  `inform_byte_sent` needs no well-formedness.
+
+  Main results (`M = limMeths now`):
+  * `loop_run`                     : the `while`, by induction on the slots, fuel `≥ |slots| + 8`: drops exactly the expired slots at the front
+                                     of both lists (`expireZ`), `break`s on the first slot still in the window;
+  * `update_run`                   : the whole of `update`, every state, integer total, fuel `≥ |slots| + 11`;
+  * `update_agrees`                : `l.WF →` the run ends in an environment that shows `l.update w now` (+ frame `updateKeys`);
+  * `update_needs_WF`              : witness (`bit_total = 0`, one expired slot of count 5): source `-5`, model `0`;
+  * `update_drops_expired`         : what `Limiter.update` does to the lists (prefix of expired slots, first survivor not expired);
+  * `addToLast_concat`, `addToLast_getLast` : `Limiter.addToLast` through the last slot (`getLast?` / `dropLast`);
+  * `inform_byte_sent_agrees` (`runFn`), `inform_byte_sent_agrees_run2` (`run2`, fuel `≥ 13`): every state, every `datalen`;
+  * `wf_default`, `wf_init`, `wf_reset`, `wf_update`, `wf_inform` : `Limiter.WF` is an invariant;
+  * `update_example`, `update_fuel`, `inform_example`, the `example`s of section 5: non-vacuity, concrete runs, fuel.
 -/
 
 namespace Isotp
@@ -143,4 +155,884 @@ theorem wf_inform (l : Limiter) (now datalen : Nat) (h : l.WF) : (l.inform now d
     omega
   · exact h
 
+/-! ## 1. infrastructure (local copies of the generic steps of GenConsume.lean / LayerQueues.lean) -/
+
+theorem set_get (env : Env) (k : String) (v : PV) (k' : String) :
+    (env.set k v) k' = if k' = k then some v else env k' := rfl
+
+/-- the names the interpreter treats as builtins; every other call goes to `Meths` -/
+def builtinNames : List String :=
+  ["len", "int", "bool", "min", "max", "bytes", "isinstance_int", "isinstance_bool", "isinstance_float", "isinstance_int_float"]
+
+theorem evalBuiltin_none (fn : String) (args : List PV) (h : fn ∉ builtinNames) : evalBuiltin fn args = none := by
+  simp only [builtinNames, List.mem_cons, List.not_mem_nil, or_false, not_or] at h
+  unfold evalBuiltin; split <;> simp_all
+
+theorem builtin_len_list (xs : List Sc) : evalBuiltin "len" [.list xs] = some (.ok (pint xs.length)) := by simp [evalBuiltin]
+
+theorem natIdx_zero : natIdx (pint 0) = .ok 0 := rfl
+
+/-- first semantics: a statement that falls through -/
+theorem cons_next1 {M : Meths} {env env' : Env} {s : PStmt} {rest : PBlock}
+    (h : execStmt M env s = .ok (.next env')) : execBlock M env (.cons s rest) = execBlock M env' rest := by
+  simp only [execBlock, h, ok_bind]
+
+/-- first semantics: `if c: t else: e` once the test is known -/
+theorem ite_step1 (M : Meths) (env : Env) (c : PExpr) (t e : PBlock) (b : Bool) (h : eval M env c = .ok (pbool b)) :
+    execStmt M env (.ite c t e) = if b then execBlock M env t else execBlock M env e := by
+  simp only [execStmt, h, ok_bind, truthy_pbool]
+
+/-- second semantics: a simple statement that falls through -/
+theorem simple_next (n : Nat) (M : Meths) (env env1 : Env) (s : PStmt) (hs : isSimple s = true)
+    (h : execStmt M env s = .ok (.next env1)) : exec2S (n + 1) M env s = .ok (.next env1) := by
+  rw [exec2S_simple n M env s hs]; unfold simple2; rw [h]; rfl
+
+theorem cons_next (n : Nat) (M : Meths) (env env1 : Env) (s : PStmt) (rest : PBlock)
+    (h : exec2S n M env s = .ok (.next env1)) : exec2B (n + 1) M env (.cons s rest) = exec2B n M env1 rest := by
+  rw [exec2B_cons, h]
+
+theorem cons_brk (n : Nat) (M : Meths) (env env1 : Env) (s : PStmt) (rest : PBlock)
+    (h : exec2S n M env s = .ok (.brk env1)) : exec2B (n + 1) M env (.cons s rest) = .ok (.brk env1) := by
+  rw [exec2B_cons, h]
+
+theorem cons_ret (n : Nat) (M : Meths) (env env1 : Env) (v : PV) (s : PStmt) (rest : PBlock)
+    (h : exec2S n M env s = .ok (.ret v env1)) : exec2B (n + 1) M env (.cons s rest) = .ok (.ret v env1) := by
+  rw [exec2B_cons, h]
+
+theorem ite_step (n : Nat) (M : Meths) (env : Env) (c : PExpr) (t e : PBlock) (b : Bool) (h : eval M env c = .ok (pbool b)) :
+    exec2S (n + 1) M env (.ite c t e) = if b then exec2B n M env t else exec2B n M env e := by
+  rw [exec2S_ite, h]; rfl
+
+/-- `while c: body` when the test is false -/
+theorem while_false (n : Nat) (M : Meths) (env : Env) (c : PExpr) (body : PBlock) (h : eval M env c = .ok (pbool false)) :
+    exec2S (n + 1) M env (.while_ c body) = .ok (.next env) := by
+  rw [exec2S_while, h]; rfl
+
+/-- one full iteration -/
+theorem while_next (n : Nat) (M : Meths) (env env1 : Env) (c : PExpr) (body : PBlock) (h : eval M env c = .ok (pbool true))
+    (hb : exec2B n M env body = .ok (.next env1)) :
+    exec2S (n + 1) M env (.while_ c body) = exec2S n M env1 (.while_ c body) := by
+  rw [exec2S_while, h]
+  show (match exec2B n M env body with
+    | .ok (.next env1) => exec2S n M env1 (.while_ c body)
+    | .ok (.brk env1) => .ok (.next env1)
+    | r => r) = _
+  rw [hb]
+
+/-- an iteration that ends with `break` -/
+theorem while_brk (n : Nat) (M : Meths) (env env1 : Env) (c : PExpr) (body : PBlock) (h : eval M env c = .ok (pbool true))
+    (hb : exec2B n M env body = .ok (.brk env1)) :
+    exec2S (n + 1) M env (.while_ c body) = .ok (.next env1) := by
+  rw [exec2S_while, h]
+  show (match exec2B n M env body with
+    | .ok (.next env1) => exec2S n M env1 (.while_ c body)
+    | .ok (.brk env1) => .ok (.next env1)
+    | r => r) = _
+  rw [hb]
+
+/-- **no hypothesis on the clock**: the integer comparison of the source (`t - t2 > w` over Python ints, negative when the clock went
+    backwards) is the comparison of the model (truncated subtraction) -/
+theorem sub_gt_cast (now t w : Nat) : decide ((w : Int) < (now : Int) - (t : Int)) = decide (now - t > w) := by
+  by_cases h : now - t > w
+  · rw [decide_eq_true h, decide_eq_true (by omega)]
+  · rw [decide_eq_false h, decide_eq_false (by omega)]
+
+/-! ## 2. the lists and their primitives -/
+
+/-- a natural number as a list element -/
+def natSc (n : Nat) : Sc := .py (.int n)
+/-- `self.burst_time` of a slot list -/
+def timesOf (sl : List (Nat × Nat)) : List Sc := (sl.map (·.1)).map natSc
+/-- `self.burst_bitcount` of a slot list -/
+def countsOf (sl : List (Nat × Nat)) : List Sc := (sl.map (·.2)).map natSc
+
+theorem sc_natSc (n : Nat) : PV.sc (natSc n) = pint n := rfl
+theorem timesOf_cons (t b : Nat) (rest : List (Nat × Nat)) : timesOf ((t, b) :: rest) = natSc t :: timesOf rest := rfl
+theorem countsOf_cons (t b : Nat) (rest : List (Nat × Nat)) : countsOf ((t, b) :: rest) = natSc b :: countsOf rest := rfl
+theorem timesOf_append (a c : List (Nat × Nat)) : timesOf (a ++ c) = timesOf a ++ timesOf c := by simp [timesOf]
+theorem countsOf_append (a c : List (Nat × Nat)) : countsOf (a ++ c) = countsOf a ++ countsOf c := by simp [countsOf]
+theorem timesOf_length (sl : List (Nat × Nat)) : (timesOf sl).length = sl.length := by simp [timesOf]
+
+/-- the presentation used by LayerTxHelpers.lean (`limAttrs`) is the same list -/
+theorem timesOf_eq (sl : List (Nat × Nat)) : timesOf sl = sl.map fun p => Sc.py (.int p.1) := by simp [timesOf, natSc]
+theorem countsOf_eq (sl : List (Nat × Nat)) : countsOf sl = sl.map fun p => Sc.py (.int p.2) := by simp [countsOf, natSc]
+
+/-- `x.pop(0)` on the list attribute `key` (`IndexError` on an empty list); with `bindTo = some v`: `v = x.pop(0)` -/
+def popHead (key : String) (bindTo : Option String) (args : List PV) (env : Env) : Except PErr Env :=
+  if args = [pint 0] then
+    match env key with
+    | some (.list (x :: xs)) =>
+        .ok (match bindTo with
+             | some v => (env.set key (.list xs)).set v (.sc x)
+             | none => env.set key (.list xs))
+    | some (.list []) => .error (.exc .IndexError)
+    | _ => .error (.exc .AttributeError)
+  else .error (.unsupported "pop(i) with i ≠ 0")
+
+/-- `x.append(v)` -/
+def appendTo (key : String) (args : List PV) (env : Env) : Except PErr Env :=
+  match args, env key with
+  | [.sc v], some (.list xs) => .ok (env.set key (.list (xs ++ [v])))
+  | _, _ => .error (.unsupported "append")
+
+/-- `x[-1]` -/
+def lastOf (args : List PV) : Except PErr PV :=
+  match args with
+  | [.list xs] =>
+    (match xs.getLast? with
+     | some x => .ok (.sc x)
+     | none => .error (.exc .IndexError))
+  | _ => .error (.exc .TypeError)
+
+/-- `x[-1] += v` on integers -/
+def addLast (key : String) (args : List PV) (env : Env) : Except PErr Env :=
+  match args, env key with
+  | [v], some (.list xs) =>
+    (match xs.getLast? with
+     | none => .error (.exc .IndexError)
+     | some x =>
+       match asInt (.sc x), asInt v with
+       | some a, some b => .ok (env.set key (.list (xs.dropLast ++ [.py (.int (a + b))])))
+       | _, _ => .error (.unsupported "x[-1] += v on non-integers"))
+  | _, _ => .error (.unsupported "x[-1] += v")
+
+/-- the clock, the list primitives, and `self.reset()` = the interpreted source of `RateLimiter.reset` -/
+def limMeths (now : Nat) : Meths where
+  fn := fun name args _ =>
+    match name with
+    | "time.perf_counter" => if args = [] then .ok (pint now) else .error (.exc .TypeError)
+    | "__last__" => lastOf args
+    | n => .error (.unsupported ("call " ++ n))
+  proc := fun name args env =>
+    match name with
+    | "self.burst_time.pop" => popHead "self.burst_time" none args env
+    | "n_to_remove:=self.burst_bitcount.pop" => popHead "self.burst_bitcount" (some "n_to_remove") args env
+    | "self.burst_time.append" => appendTo "self.burst_time" args env
+    | "self.burst_bitcount.append" => appendTo "self.burst_bitcount" args env
+    | "self.burst_bitcount[-1]+=" => addLast "self.burst_bitcount" args env
+    | "self.reset" => if args = [] then envM noMeths env Src.RateLimiter_reset else .error (.exc .TypeError)
+    | n => .error (.unsupported ("call " ++ n))
+
+theorem limMeths_lookups (now : Nat) (args : List PV) (env : Env) :
+    (limMeths now).fn "time.perf_counter" [] env = .ok (pint now) ∧
+    (limMeths now).fn "__last__" args env = lastOf args ∧
+    (limMeths now).proc "self.burst_time.pop" args env = popHead "self.burst_time" none args env ∧
+    (limMeths now).proc "n_to_remove:=self.burst_bitcount.pop" args env =
+      popHead "self.burst_bitcount" (some "n_to_remove") args env ∧
+    (limMeths now).proc "self.burst_time.append" args env = appendTo "self.burst_time" args env ∧
+    (limMeths now).proc "self.burst_bitcount.append" args env = appendTo "self.burst_bitcount" args env ∧
+    (limMeths now).proc "self.burst_bitcount[-1]+=" args env = addLast "self.burst_bitcount" args env ∧
+    (limMeths now).proc "self.reset" [] env = envM noMeths env Src.RateLimiter_reset :=
+  ⟨rfl, rfl, rfl, rfl, rfl, rfl, rfl, rfl⟩
+
+theorem popHead_cons (key : String) (env : Env) (x : Sc) (xs : List Sc) (h : env key = some (.list (x :: xs))) :
+    popHead key none [pint 0] env = .ok (env.set key (.list xs)) := by
+  unfold popHead; rw [if_pos rfl, h]
+
+theorem popHead_bind_cons (key v : String) (env : Env) (x : Sc) (xs : List Sc) (h : env key = some (.list (x :: xs))) :
+    popHead key (some v) [pint 0] env = .ok ((env.set key (.list xs)).set v (.sc x)) := by
+  unfold popHead; rw [if_pos rfl, h]
+
+theorem appendTo_list (key : String) (env : Env) (v : Sc) (xs : List Sc) (h : env key = some (.list xs)) :
+    appendTo key [.sc v] env = .ok (env.set key (.list (xs ++ [v]))) := by
+  unfold appendTo; rw [h]
+
+theorem lastOf_concat (xs : List Sc) (x : Sc) : lastOf [.list (xs ++ [x])] = .ok (.sc x) := by
+  simp [lastOf]
+
+theorem addLast_concat (key : String) (env : Env) (xs : List Sc) (a b : Nat) (h : env key = some (.list (xs ++ [natSc a]))) :
+    addLast key [pint b] env = .ok (env.set key (.list (xs ++ [natSc (a + b)]))) := by
+  unfold addLast; rw [h]
+  simp [natSc, asInt, Sc.isInt, Sc.intVal, PyVal.isInt, PyVal.intVal]
+
+/-- `self.reset()`: the run of the interpreted source (same statement as `ratelimiter_reset_run` of LayerTxHelpers.lean, integer factors) -/
+def resetEnv (env : Env) (b w : Nat) : Env :=
+  (((env.set "self.burst_bitcount" (.list [])).set "self.burst_time" (.list [])).set "self.bit_total" (pint 0)).set
+    "self.window_bit_max" (pint ((b : Int) * (w : Int)))
+
+theorem reset_run (env : Env) (b w : Nat) (h1 : env "self.mean_bitrate" = some (pint b))
+    (h2 : env "self.window_size_sec" = some (pint w)) :
+    envM noMeths env Src.RateLimiter_reset = .ok (resetEnv env b w) := by
+  simp [envM, runFn, Src.RateLimiter_reset, execBlock, execStmt, eval, evalArgs, set_get, h1, h2, resetEnv]
+
+/-! ## 3. `update` -/
+
+def c0 : PExpr := .not_ (.var "self.enabled")
+def resetB : PBlock := .cons (.expr (.call "self.reset" .nil)) (.cons .retNone .nil)
+def s0 : PStmt := .ite c0 resetB .nil
+def s1 : PStmt := .assign "t" (.call "time.perf_counter" .nil)
+def wc : PExpr := .cmp .gt (.call "len" (.cons (.var "self.burst_time") .nil)) (.int 0)
+def b1 : PStmt := .assign "t2" (.index (.var "self.burst_time") (.int 0))
+def ic : PExpr := .cmp .gt (.binop .sub (.var "t") (.var "t2")) (.var "self.window_size_sec")
+def p1 : PStmt := .expr (.call "self.burst_time.pop" (.cons (.int 0) .nil))
+def p2 : PStmt := .expr (.call "n_to_remove:=self.burst_bitcount.pop" (.cons (.int 0) .nil))
+def p3 : PStmt := .assign "self.bit_total" (.binop .sub (.var "self.bit_total") (.var "n_to_remove"))
+def popB : PBlock := .cons p1 (.cons p2 (.cons p3 .nil))
+def brkB : PBlock := .cons .break_ .nil
+def b2 : PStmt := .ite ic popB brkB
+def body : PBlock := .cons b1 (.cons b2 .nil)
+def loop : PStmt := .while_ wc body
+
+/-- the dumped source is these statements (breaks, as it should, when the source changes) -/
+theorem update_src : Src.RateLimiter_update = .cons s0 (.cons s1 (.cons loop .nil)) := rfl
+
+/-- what the `while` loop of the SOURCE computes: `Limiter.expire` with an integer (not truncated) total -/
+def expireZ (w now : Nat) : List (Nat × Nat) → Int → List (Nat × Nat) × Int
+  | [], bt => ([], bt)
+  | (t, b) :: rest, bt => if now - t > w then expireZ w now rest (bt - b) else ((t, b) :: rest, bt)
+
+/-- on a well-formed limiter the truncation never happens -/
+theorem expireZ_of_wf (w now : Nat) : ∀ (sl : List (Nat × Nat)) (bt : Nat), bitSum sl ≤ bt →
+    expireZ w now sl bt = ((Limiter.expire w now sl bt).1, (((Limiter.expire w now sl bt).2 : Nat) : Int))
+  | [], bt, _ => rfl
+  | (t, b) :: rest, bt, h => by
+    rw [bitSum_cons] at h
+    unfold expireZ Limiter.expire
+    split
+    · have e : (bt : Int) - (b : Int) = ((bt - b : Nat) : Int) := by omega
+      rw [e]
+      exact expireZ_of_wf w now rest (bt - b) (by omega)
+    · rfl
+
+/-- the slots `expireZ` keeps are those `expire` keeps, whatever the totals -/
+theorem expireZ_slots (w now : Nat) : ∀ (sl : List (Nat × Nat)) (bt : Int) (bt' : Nat),
+    (expireZ w now sl bt).1 = (Limiter.expire w now sl bt').1
+  | [], _, _ => rfl
+  | (t, b) :: rest, bt, bt' => by
+    unfold expireZ Limiter.expire
+    split
+    · exact expireZ_slots w now rest _ _
+    · rfl
+
+/-- what the loop reads and writes of the object, with an INTEGER total -/
+structure Inv (w now : Nat) (env : Env) (sl : List (Nat × Nat)) (bt : Int) : Prop where
+  times : env "self.burst_time" = some (.list (timesOf sl))
+  counts : env "self.burst_bitcount" = some (.list (countsOf sl))
+  total : env "self.bit_total" = some (pint bt)
+  t : env "t" = some (pint now)
+  window : env "self.window_size_sec" = some (pint w)
+
+/-- the names the loop assigns -/
+def loopKeys : List String := ["t2", "n_to_remove", "self.burst_time", "self.burst_bitcount", "self.bit_total"]
+
+theorem eval_wc_nil (now : Nat) (env : Env) (h : env "self.burst_time" = some (.list [])) :
+    eval (limMeths now) env wc = .ok (pbool false) := by
+  simp [wc, eval, evalArgs, h, builtin_len_list, evalCmp_gt_pint]
+
+theorem eval_wc_cons (now : Nat) (env : Env) (a : Sc) (xs : List Sc) (h : env "self.burst_time" = some (.list (a :: xs))) :
+    eval (limMeths now) env wc = .ok (pbool true) := by
+  simp [wc, eval, evalArgs, h, builtin_len_list, evalCmp_gt_pint]
+
+theorem stmt_b1 (now : Nat) (env : Env) (a : Sc) (xs : List Sc) (h : env "self.burst_time" = some (.list (a :: xs))) :
+    execStmt (limMeths now) env b1 = .ok (.next (env.set "t2" (.sc a))) := by
+  simp [b1, execStmt, eval, h, natIdx_zero]
+
+theorem eval_ic (now t w : Nat) (env : Env) (h1 : env "t" = some (pint now)) (h2 : env "t2" = some (pint t))
+    (h3 : env "self.window_size_sec" = some (pint w)) :
+    eval (limMeths now) env ic = .ok (pbool (decide (now - t > w))) := by
+  simp only [ic, eval, h1, h2, h3, ok_bind, evalBinop_sub, evalCmp_gt_pint, sub_gt_cast]
+
+theorem stmt_p1 (now : Nat) (env : Env) (a : Sc) (xs : List Sc) (h : env "self.burst_time" = some (.list (a :: xs))) :
+    execStmt (limMeths now) env p1 = .ok (.next (env.set "self.burst_time" (.list xs))) := by
+  simp [p1, execStmt, evalArgs, eval, evalBuiltin_none "self.burst_time.pop" _ (by decide),
+    (limMeths_lookups now [pint 0] env).2.2.1, popHead_cons _ env a xs h]
+
+theorem stmt_p2 (now : Nat) (env : Env) (a : Sc) (xs : List Sc) (h : env "self.burst_bitcount" = some (.list (a :: xs))) :
+    execStmt (limMeths now) env p2 =
+      .ok (.next ((env.set "self.burst_bitcount" (.list xs)).set "n_to_remove" (.sc a))) := by
+  simp [p2, execStmt, evalArgs, eval, evalBuiltin_none "n_to_remove:=self.burst_bitcount.pop" _ (by decide),
+    (limMeths_lookups now [pint 0] env).2.2.2.1, popHead_bind_cons _ _ env a xs h]
+
+theorem stmt_p3 (now : Nat) (env : Env) (bt b : Int) (h1 : env "self.bit_total" = some (pint bt))
+    (h2 : env "n_to_remove" = some (pint b)) :
+    execStmt (limMeths now) env p3 = .ok (.next (env.set "self.bit_total" (pint (bt - b)))) := by
+  simp only [p3, execStmt, eval, h1, h2, ok_bind, evalBinop_sub]
+
+/-- the environment after one popping iteration -/
+def popEnv (env : Env) (t b : Nat) (rest : List (Nat × Nat)) (bt : Int) : Env :=
+  ((((env.set "t2" (pint t)).set "self.burst_time" (.list (timesOf rest))).set "self.burst_bitcount" (.list (countsOf rest))).set
+    "n_to_remove" (pint b)).set "self.bit_total" (pint (bt - b))
+
+theorem popEnv_inv (w now : Nat) (env : Env) (t b : Nat) (rest : List (Nat × Nat)) (bt : Int)
+    (hi : Inv w now env ((t, b) :: rest) bt) : Inv w now (popEnv env t b rest bt) rest (bt - b) := by
+  constructor <;> simp [popEnv, set_get, hi.t, hi.window]
+
+theorem popEnv_frame (env : Env) (t b : Nat) (rest : List (Nat × Nat)) (bt : Int) (k : String) (hk : k ∉ loopKeys) :
+    popEnv env t b rest bt k = env k := by
+  simp only [loopKeys, List.mem_cons, List.not_mem_nil, or_false, not_or] at hk
+  simp [popEnv, set_get, hk]
+
+/-- an iteration on an expired head slot: the slot is popped from both lists and its count subtracted -/
+theorem body_pop (w now : Nat) (env : Env) (t b : Nat) (rest : List (Nat × Nat)) (bt : Int) (m : Nat)
+    (hi : Inv w now env ((t, b) :: rest) bt) (hexp : now - t > w) :
+    exec2B (m + 8) (limMeths now) env body = .ok (.next (popEnv env t b rest bt)) := by
+  have e1 : execStmt (limMeths now) env b1 = .ok (.next (env.set "t2" (pint t))) := stmt_b1 now env _ _ hi.times
+  have hc := eval_ic now t w (env.set "t2" (pint t)) (by simp [set_get, hi.t]) (by simp [set_get])
+    (by simp [set_get, hi.window])
+  have e2 := stmt_p1 now (env.set "t2" (pint t)) (natSc t) (timesOf rest) (by simp [set_get, hi.times, timesOf_cons])
+  have e3 := stmt_p2 now ((env.set "t2" (pint t)).set "self.burst_time" (.list (timesOf rest))) (natSc b) (countsOf rest)
+    (by simp [set_get, hi.counts, countsOf_cons])
+  have e4 := stmt_p3 now
+    ((((env.set "t2" (pint t)).set "self.burst_time" (.list (timesOf rest))).set "self.burst_bitcount" (.list (countsOf rest))).set
+      "n_to_remove" (.sc (natSc b))) bt b (by simp [set_get, hi.total]) (by simp [set_get, sc_natSc])
+  have hpop : exec2B (m + 5) (limMeths now) (env.set "t2" (pint t)) popB = .ok (.next (popEnv env t b rest bt)) := by
+    unfold popB
+    rw [cons_next (m + 4) _ _ _ _ _ (simple_next (m + 3) _ _ _ _ rfl e2),
+      cons_next (m + 3) _ _ _ _ _ (simple_next (m + 2) _ _ _ _ rfl e3),
+      cons_next (m + 2) _ _ _ _ _ (simple_next (m + 1) _ _ _ _ rfl e4), exec2B_nil]
+    rfl
+  have hb2 : exec2S (m + 6) (limMeths now) (env.set "t2" (pint t)) b2 = .ok (.next (popEnv env t b rest bt)) := by
+    unfold b2
+    rw [ite_step (m + 5) _ _ _ _ _ _ hc, decide_eq_true hexp, if_pos rfl, hpop]
+  unfold body
+  rw [cons_next (m + 7) _ _ _ _ _ (simple_next (m + 6) _ _ _ _ rfl e1), cons_next (m + 6) _ _ _ _ _ hb2, exec2B_nil]
+
+/-- an iteration on a head slot still in the window: `break` -/
+theorem body_brk (w now : Nat) (env : Env) (t b : Nat) (rest : List (Nat × Nat)) (bt : Int) (m : Nat)
+    (hi : Inv w now env ((t, b) :: rest) bt) (hexp : ¬ now - t > w) :
+    exec2B (m + 5) (limMeths now) env body = .ok (.brk (env.set "t2" (pint t))) := by
+  have e1 : execStmt (limMeths now) env b1 = .ok (.next (env.set "t2" (pint t))) := stmt_b1 now env _ _ hi.times
+  have hc := eval_ic now t w (env.set "t2" (pint t)) (by simp [set_get, hi.t]) (by simp [set_get])
+    (by simp [set_get, hi.window])
+  have hb2 : exec2S (m + 3) (limMeths now) (env.set "t2" (pint t)) b2 = .ok (.brk (env.set "t2" (pint t))) := by
+    unfold b2 brkB
+    rw [ite_step (m + 2) _ _ _ _ _ _ hc, decide_eq_false hexp, if_neg (by simp),
+      cons_brk (m + 1) _ _ _ _ _ (exec2S_break m _ _)]
+  unfold body
+  rw [cons_next (m + 4) _ _ _ _ _ (simple_next (m + 3) _ _ _ _ rfl e1), cons_brk (m + 3) _ _ _ _ _ hb2]
+
+/-- **the loop**, by induction on the slots: with `|slots| + 8` units of fuel it ends normally, having dropped exactly the expired slots
+    from the front of both lists and subtracted their counts (over the integers); it stops at the first slot still in the window. -/
+theorem loop_run (w now : Nat) : ∀ (sl : List (Nat × Nat)) (bt : Int) (env : Env) (n : Nat),
+    Inv w now env sl bt → sl.length + 8 ≤ n →
+    ∃ env', exec2S n (limMeths now) env loop = .ok (.next env') ∧
+      Inv w now env' (expireZ w now sl bt).1 (expireZ w now sl bt).2 ∧ ∀ k, k ∉ loopKeys → env' k = env k
+  | [], bt, env, n, hi, hn => by
+    obtain ⟨m, rfl⟩ : ∃ m, n = m + 1 := ⟨n - 1, by omega⟩
+    exact ⟨env, while_false m _ _ _ _ (eval_wc_nil now env hi.times), hi, fun _ _ => rfl⟩
+  | (t, b) :: rest, bt, env, n, hi, hn => by
+    obtain ⟨m, rfl⟩ : ∃ m, n = m + 9 := ⟨n - 9, by simp only [List.length_cons] at hn; omega⟩
+    have hc := eval_wc_cons now env _ _ hi.times
+    by_cases hexp : now - t > w
+    · obtain ⟨env', h1, h2, h3⟩ := loop_run w now rest (bt - b) (popEnv env t b rest bt) (m + 8) (popEnv_inv w now env t b rest bt hi)
+        (by simp only [List.length_cons] at hn; omega)
+      refine ⟨env', ?_, ?_, ?_⟩
+      · unfold loop at h1 ⊢
+        rw [while_next (m + 8) _ _ _ _ _ hc (body_pop w now env t b rest bt m hi hexp)]
+        exact h1
+      · simpa only [expireZ, hexp, if_true] using h2
+      · intro k hk
+        rw [h3 k hk, popEnv_frame env t b rest bt k hk]
+    · refine ⟨env.set "t2" (pint t), ?_, ?_, ?_⟩
+      · unfold loop
+        rw [while_brk (m + 8) _ _ _ _ _ hc (body_brk w now env t b rest bt (m + 3) hi hexp)]
+      · simp only [expireZ, hexp, if_false]
+        constructor <;> simp [set_get, hi.times, hi.counts, hi.total, hi.t, hi.window]
+      · intro k hk
+        simp only [loopKeys, List.mem_cons, List.not_mem_nil, or_false, not_or] at hk
+        simp [set_get, hk]
+
+/-! ### the whole of `update` -/
+
+/-- what an environment shows of a limiter - with an INTEGER total, so that the run can be described without well-formedness -/
+structure ShowsZ (env : Env) (en : Bool) (sl : List (Nat × Nat)) (bt : Int) (w : Nat) : Prop where
+  enabled : env "self.enabled" = some (pbool en)
+  bitTotal : env "self.bit_total" = some (pint bt)
+  times : env "self.burst_time" = some (.list (timesOf sl))
+  counts : env "self.burst_bitcount" = some (.list (countsOf sl))
+  window : env "self.window_size_sec" = some (pint w)
+  slot : env "self.TIME_SLOT_LENGTH" = some (pint slotNs)
+
+/-- the environment shows the model's limiter `l` (window `w` ns) -/
+def Shows (env : Env) (l : Limiter) (w : Nat) : Prop := ShowsZ env l.enabled l.slots l.bitTotal w
+
+/-- what the SOURCE of `update` computes (integer total) -/
+def updateZ (en : Bool) (sl : List (Nat × Nat)) (bt : Int) (w now : Nat) : List (Nat × Nat) × Int :=
+  if en then expireZ w now sl bt else ([], 0)
+
+/-- the names `update` may assign (the last one only through `reset()`, on a disabled limiter) -/
+def updateKeys : List String :=
+  ["t", "t2", "n_to_remove", "self.burst_time", "self.burst_bitcount", "self.bit_total", "self.window_bit_max"]
+
+theorem eval_c0 (now : Nat) (env : Env) (en : Bool) (h : env "self.enabled" = some (pbool en)) :
+    eval (limMeths now) env c0 = .ok (pbool (!en)) := by
+  simp only [c0, eval, h, ok_bind, truthy_pbool]
+
+theorem stmt_reset (now : Nat) (env : Env) (b w : Nat) (h1 : env "self.mean_bitrate" = some (pint b))
+    (h2 : env "self.window_size_sec" = some (pint w)) :
+    execStmt (limMeths now) env (.expr (.call "self.reset" .nil)) = .ok (.next (resetEnv env b w)) := by
+  simp [execStmt, evalArgs, evalBuiltin_none "self.reset" _ (by decide), (limMeths_lookups now [] env).2.2.2.2.2.2.2,
+    reset_run env b w h1 h2]
+
+theorem stmt_clock (now : Nat) (env : Env) : execStmt (limMeths now) env s1 = .ok (.next (env.set "t" (pint now))) := by
+  simp [s1, execStmt, eval, evalArgs, evalBuiltin_none "time.perf_counter" _ (by decide), (limMeths_lookups now [] env).1]
+
+theorem retNone_step (n : Nat) (M : Meths) (env : Env) : exec2S (n + 1) M env .retNone = .ok (.ret pnone env) := rfl
+
+/-- **the run of `update`, without any well-formedness**: with fuel `≥ |slots| + 11` the call returns `None` in an environment that shows
+    what the source computes over the integers (`updateZ`: disabled → `reset()`; enabled → the expired slots dropped from the front, their
+    counts subtracted), every other attribute unchanged.  `self.mean_bitrate` is only read by `reset()` (disabled limiter). -/
+theorem update_run (en : Bool) (sl : List (Nat × Nat)) (bt : Int) (w now b : Nat) (env : Env) (n : Nat)
+    (hs : ShowsZ env en sl bt w) (hmb : en = false → env "self.mean_bitrate" = some (pint b)) (hn : sl.length + 11 ≤ n) :
+    ∃ env', run2 n (limMeths now) env Src.RateLimiter_update = .ok (.ret pnone env') ∧
+      ShowsZ env' en (updateZ en sl bt w now).1 (updateZ en sl bt w now).2 w ∧ ∀ k, k ∉ updateKeys → env' k = env k := by
+  obtain ⟨m, rfl⟩ : ∃ m, n = m + 11 := ⟨n - 11, by omega⟩
+  have hc := eval_c0 now env en hs.enabled
+  cases en with
+  | false =>
+    refine ⟨resetEnv env b w, ?_, ?_, ?_⟩
+    · have h0 : exec2S (m + 10) (limMeths now) env s0 = .ok (.ret pnone (resetEnv env b w)) := by
+        unfold s0 resetB
+        rw [ite_step (m + 9) _ _ _ _ _ _ hc]
+        simp only [Bool.not_false, if_true]
+        rw [cons_next (m + 8) _ _ _ _ _ (simple_next (m + 7) _ _ _ _ rfl (stmt_reset now env b w (hmb rfl) hs.window)),
+          cons_ret (m + 7) _ _ _ _ _ _ (retNone_step (m + 6) _ _)]
+      unfold run2
+      rw [update_src, cons_ret (m + 10) _ _ _ _ _ _ h0]
+    · constructor <;> simp [updateZ, resetEnv, set_get, hs.enabled, hs.window, hs.slot, timesOf, countsOf]
+    · intro k hk
+      simp only [updateKeys, List.mem_cons, List.not_mem_nil, or_false, not_or] at hk
+      simp [resetEnv, set_get, hk]
+  | true =>
+    have h0 : exec2S (m + 10) (limMeths now) env s0 = .ok (.next env) := by
+      unfold s0
+      rw [ite_step (m + 9) _ _ _ _ _ _ hc]
+      simp only [Bool.not_true, Bool.false_eq_true, if_false]
+      rfl
+    have hi : Inv w now (env.set "t" (pint now)) sl bt := by
+      constructor <;> simp [set_get, hs.times, hs.counts, hs.bitTotal, hs.window]
+    obtain ⟨env', h1, h2, h3⟩ := loop_run w now sl bt (env.set "t" (pint now)) (m + 8) hi (by omega)
+    refine ⟨env', ?_, ?_, ?_⟩
+    · unfold run2
+      rw [update_src, cons_next (m + 10) _ _ _ _ _ h0,
+        cons_next (m + 9) _ _ _ _ _ (simple_next (m + 8) _ _ _ _ rfl (stmt_clock now env)),
+        cons_next (m + 8) _ _ _ _ _ h1, exec2B_nil]
+    · have he := h3 "self.enabled" (by decide)
+      have hsl := h3 "self.TIME_SLOT_LENGTH" (by decide)
+      simp only [updateZ, if_true]
+      exact ⟨by rw [he]; simp [set_get, hs.enabled], h2.total, h2.times, h2.counts, h2.window,
+        by rw [hsl]; simp [set_get, hs.slot]⟩
+    · intro k hk
+      simp only [updateKeys, List.mem_cons, List.not_mem_nil, or_false, not_or] at hk
+      rw [h3 k (by simp [loopKeys, hk])]
+      simp [set_get, hk]
+
+/-- the model's `update`, field by field -/
+theorem update_fields (l : Limiter) (w now : Nat) :
+    (l.update w now).enabled = l.enabled ∧
+    (l.update w now).slots = (if l.enabled then (Limiter.expire w now l.slots l.bitTotal).1 else []) ∧
+    (l.update w now).bitTotal = (if l.enabled then (Limiter.expire w now l.slots l.bitTotal).2 else 0) := by
+  cases he : l.enabled <;> simp [Limiter.update, Limiter.reset, he]
+
+/-- on a well-formed limiter the source computes the model's `update` -/
+theorem updateZ_of_wf (l : Limiter) (w now : Nat) (h : l.WF) :
+    updateZ l.enabled l.slots l.bitTotal w now = ((l.update w now).slots, ((l.update w now).bitTotal : Int)) := by
+  obtain ⟨-, h2, h3⟩ := update_fields l w now
+  rw [h2, h3]
+  unfold updateZ
+  cases l.enabled
+  · rfl
+  · simp only [if_true]
+    exact expireZ_of_wf w now l.slots l.bitTotal h
+
+/-- **`RateLimiter.update` agrees with `Limiter.update`**: for every WELL-FORMED limiter `l`, window `w`, clock value `now`, every
+    environment that shows `l` (and `self.mean_bitrate`, read by `reset()` when the limiter is disabled) and every fuel `≥ |slots| + 11`, the
+    call returns `None` in an environment that shows `l.update w now`; only the names of `updateKeys` may have changed.
+    No hypothesis on the clock (`now` may be smaller than a slot time).  `WF` cannot be dropped: `update_needs_WF`. -/
+theorem update_agrees (l : Limiter) (w now b : Nat) (env : Env) (n : Nat) (hs : Shows env l w)
+    (hmb : l.enabled = false → env "self.mean_bitrate" = some (pint b)) (hwf : l.WF) (hn : l.slots.length + 11 ≤ n) :
+    ∃ env', run2 n (limMeths now) env Src.RateLimiter_update = .ok (.ret pnone env') ∧
+      Shows env' (l.update w now) w ∧ ∀ k, k ∉ updateKeys → env' k = env k := by
+  obtain ⟨env', h1, h2, h3⟩ := update_run l.enabled l.slots l.bitTotal w now b env n hs hmb hn
+  refine ⟨env', h1, ?_, h3⟩
+  rw [updateZ_of_wf l w now hwf] at h2
+  unfold Shows
+  rw [(update_fields l w now).1]
+  exact h2
+
+/-- what the agreement says about the lists: exactly the expired slots at the front are gone, the first slot left (if any) is still in the
+    window, and the total lost their counts -/
+theorem update_drops_expired (l : Limiter) (w now : Nat) (he : l.enabled = true) :
+    ∃ pre, l.slots = pre ++ (l.update w now).slots ∧ (∀ p ∈ pre, now - p.1 > w) ∧
+      (l.update w now).bitTotal = l.bitTotal - bitSum pre ∧
+      (∀ p, (l.update w now).slots.head? = some p → ¬ now - p.1 > w) := by
+  obtain ⟨-, h2, h3⟩ := update_fields l w now
+  rw [h2, h3, he]
+  exact expire_suffix w now l.slots l.bitTotal
+
+/-- **`WF` is needed**: an enabled limiter whose total (0) is below the count (5) of an expired slot.  In EVERY environment that shows it,
+    the source ends with `bit_total = -5`, the model's `update` says `0`: the final environment does not show `l.update`. -/
+theorem update_needs_WF :
+    let l : Limiter := { enabled := true, slots := [(0, 5)], bitTotal := 0 }
+    ¬ l.WF ∧ (l.update 0 1).bitTotal = 0 ∧
+    ∀ (env : Env) (n : Nat), Shows env l 0 → 12 ≤ n →
+      ∃ env', run2 n (limMeths 1) env Src.RateLimiter_update = .ok (.ret pnone env') ∧
+        env' "self.bit_total" = some (pint (-5)) ∧ ¬ Shows env' (l.update 0 1) 0 := by
+  refine ⟨by simp [Limiter.WF], rfl, ?_⟩
+  intro env n hs hn
+  obtain ⟨env', h1, h2, -⟩ := update_run true [(0, 5)] 0 0 1 0 env n hs (fun h => by cases h) hn
+  have hb : env' "self.bit_total" = some (pint (-5)) := h2.bitTotal
+  refine ⟨env', h1, hb, ?_⟩
+  intro h
+  have := h.bitTotal
+  rw [hb] at this
+  cases this
+
+/-! ## 4. `inform_byte_sent` -/
+
+def i1 : PStmt := .assign "bytelen" (.binop .mul (.var "datalen") (.int 8))
+def i3 : PStmt := .assign "self.bit_total" (.binop .add (.var "self.bit_total") (.var "bytelen"))
+def a1 : PStmt := .expr (.call "self.burst_time.append" (.cons (.var "t") .nil))
+def a2 : PStmt := .expr (.call "self.burst_bitcount.append" (.cons (.var "bytelen") .nil))
+def newB : PBlock := .cons a1 (.cons a2 .nil)
+def ec : PExpr := .cmp .eq (.call "len" (.cons (.var "self.burst_time") .nil)) (.int 0)
+def j1 : PStmt := .assign "last_time" (.call "__last__" (.cons (.var "self.burst_time") .nil))
+def sc : PExpr := .cmp .gt (.binop .sub (.var "t") (.var "last_time")) (.var "self.TIME_SLOT_LENGTH")
+def a3 : PStmt := .expr (.call "self.burst_bitcount[-1]+=" (.cons (.var "bytelen") .nil))
+def addB : PBlock := .cons a3 .nil
+def j2 : PStmt := .ite sc newB addB
+def i4 : PStmt := .ite ec newB (.cons j1 (.cons j2 .nil))
+def onB : PBlock := .cons i1 (.cons s1 (.cons i3 (.cons i4 .nil)))
+
+/-- the dumped source is these statements (`s1` is `t = time.perf_counter()`, the same statement as in `update`) -/
+theorem inform_src : Src.RateLimiter_inform_byte_sent = .cons (.ite (.var "self.enabled") onB .nil) .nil := rfl
+
+/-- the names `inform_byte_sent` may assign -/
+def informKeys : List String := ["bytelen", "t", "last_time", "self.bit_total", "self.burst_time", "self.burst_bitcount"]
+
+theorem stmt_i1 (now : Nat) (env : Env) (d : Nat) (h : env "datalen" = some (pint d)) :
+    execStmt (limMeths now) env i1 = .ok (.next (env.set "bytelen" (pint ((d * 8 : Nat) : Int)))) := by
+  simp only [i1, execStmt, eval, h, ok_bind, evalBinop_mul, Int.natCast_mul]
+  rfl
+
+theorem stmt_i3 (now : Nat) (env : Env) (bt bits : Nat) (h1 : env "self.bit_total" = some (pint bt))
+    (h2 : env "bytelen" = some (pint bits)) :
+    execStmt (limMeths now) env i3 = .ok (.next (env.set "self.bit_total" (pint ((bt + bits : Nat) : Int)))) := by
+  simp only [i3, execStmt, eval, h1, h2, ok_bind, evalBinop_add, Int.natCast_add]
+
+theorem eval_ec_nil (now : Nat) (env : Env) (h : env "self.burst_time" = some (.list [])) :
+    eval (limMeths now) env ec = .ok (pbool true) := by
+  simp [ec, eval, evalArgs, h, builtin_len_list]
+
+theorem eval_ec_concat (now : Nat) (env : Env) (xs : List Sc) (a : Sc) (h : env "self.burst_time" = some (.list (xs ++ [a]))) :
+    eval (limMeths now) env ec = .ok (pbool false) := by
+  simp [ec, eval, evalArgs, h, builtin_len_list]
+  omega
+
+theorem stmt_a1 (now : Nat) (env : Env) (v : Sc) (xs : List Sc) (h1 : env "t" = some (.sc v))
+    (h2 : env "self.burst_time" = some (.list xs)) :
+    execStmt (limMeths now) env a1 = .ok (.next (env.set "self.burst_time" (.list (xs ++ [v])))) := by
+  simp [a1, execStmt, evalArgs, eval, h1, evalBuiltin_none "self.burst_time.append" _ (by decide),
+    (limMeths_lookups now [.sc v] env).2.2.2.2.1, appendTo_list _ env v xs h2]
+
+theorem stmt_a2 (now : Nat) (env : Env) (v : Sc) (ys : List Sc) (h1 : env "bytelen" = some (.sc v))
+    (h2 : env "self.burst_bitcount" = some (.list ys)) :
+    execStmt (limMeths now) env a2 = .ok (.next (env.set "self.burst_bitcount" (.list (ys ++ [v])))) := by
+  simp [a2, execStmt, evalArgs, eval, h1, evalBuiltin_none "self.burst_bitcount.append" _ (by decide),
+    (limMeths_lookups now [.sc v] env).2.2.2.2.2.1, appendTo_list _ env v ys h2]
+
+/-- `self.burst_time.append(t); self.burst_bitcount.append(bytelen)`: a new slot -/
+theorem newB_run (now : Nat) (env : Env) (bits : Nat) (xs ys : List Sc) (h1 : env "t" = some (pint now))
+    (h2 : env "bytelen" = some (pint bits)) (h3 : env "self.burst_time" = some (.list xs))
+    (h4 : env "self.burst_bitcount" = some (.list ys)) :
+    execBlock (limMeths now) env newB =
+      .ok (.next ((env.set "self.burst_time" (.list (xs ++ [natSc now]))).set "self.burst_bitcount" (.list (ys ++ [natSc bits])))) := by
+  unfold newB
+  rw [cons_next1 (stmt_a1 now env (natSc now) xs h1 h3),
+    cons_next1 (stmt_a2 now _ (natSc bits) ys (by simp [set_get, h2, sc_natSc]) (by simp [set_get, h4]))]
+  rfl
+
+theorem stmt_j1 (now : Nat) (env : Env) (xs : List Sc) (a : Sc) (h : env "self.burst_time" = some (.list (xs ++ [a]))) :
+    execStmt (limMeths now) env j1 = .ok (.next (env.set "last_time" (.sc a))) := by
+  simp [j1, execStmt, evalArgs, eval, h, evalBuiltin_none "__last__" _ (by decide),
+    (limMeths_lookups now [.list (xs ++ [a])] env).2.1, lastOf_concat]
+
+theorem eval_sc (now tl : Nat) (env : Env) (h1 : env "t" = some (pint now)) (h2 : env "last_time" = some (pint tl))
+    (h3 : env "self.TIME_SLOT_LENGTH" = some (pint slotNs)) :
+    eval (limMeths now) env sc = .ok (pbool (decide (now - tl > slotNs))) := by
+  simp only [sc, eval, h1, h2, h3, ok_bind, evalBinop_sub, evalCmp_gt_pint, sub_gt_cast]
+
+/-- `self.burst_bitcount[-1] += bytelen` -/
+theorem addB_run (now : Nat) (env : Env) (bits bl : Nat) (ys : List Sc) (h2 : env "bytelen" = some (pint bits))
+    (h4 : env "self.burst_bitcount" = some (.list (ys ++ [natSc bl]))) :
+    execBlock (limMeths now) env addB = .ok (.next (env.set "self.burst_bitcount" (.list (ys ++ [natSc (bl + bits)])))) := by
+  have e : execStmt (limMeths now) env a3 = .ok (.next (env.set "self.burst_bitcount" (.list (ys ++ [natSc (bl + bits)])))) := by
+    simp [a3, execStmt, evalArgs, eval, h2, evalBuiltin_none "self.burst_bitcount[-1]+=" _ (by decide),
+      (limMeths_lookups now [pint bits] env).2.2.2.2.2.2.1, addLast_concat _ env ys bl bits h4]
+  unfold addB
+  rw [cons_next1 e]
+  rfl
+
+/-- `if len(self.burst_time) == 0:` on an empty list: a new slot -/
+theorem i4_nil (now : Nat) (env : Env) (bits : Nat) (ys : List Sc) (h1 : env "t" = some (pint now))
+    (h2 : env "bytelen" = some (pint bits)) (h3 : env "self.burst_time" = some (.list []))
+    (h4 : env "self.burst_bitcount" = some (.list ys)) :
+    execStmt (limMeths now) env i4 =
+      .ok (.next ((env.set "self.burst_time" (.list ([] ++ [natSc now]))).set "self.burst_bitcount" (.list (ys ++ [natSc bits])))) := by
+  unfold i4
+  rw [ite_step1 _ _ _ _ _ true (eval_ec_nil now env h3), if_pos rfl]
+  exact newB_run now env bits _ _ h1 h2 h3 h4
+
+/-- `else:` branch, the last slot is older than `TIME_SLOT_LENGTH`: a new slot -/
+theorem i4_new (now : Nat) (env : Env) (bits tl : Nat) (xs ys : List Sc) (h1 : env "t" = some (pint now))
+    (h2 : env "bytelen" = some (pint bits)) (h3 : env "self.burst_time" = some (.list (xs ++ [natSc tl])))
+    (h4 : env "self.burst_bitcount" = some (.list ys)) (h5 : env "self.TIME_SLOT_LENGTH" = some (pint slotNs))
+    (hold : now - tl > slotNs) :
+    execStmt (limMeths now) env i4 =
+      .ok (.next (((env.set "last_time" (pint tl)).set "self.burst_time" (.list ((xs ++ [natSc tl]) ++ [natSc now]))).set
+        "self.burst_bitcount" (.list (ys ++ [natSc bits])))) := by
+  have ej : execStmt (limMeths now) env j1 = .ok (.next (env.set "last_time" (pint tl))) := stmt_j1 now env _ _ h3
+  have hc := eval_sc now tl (env.set "last_time" (pint tl)) (by simp [set_get, h1]) (by simp [set_get]) (by simp [set_get, h5])
+  have e2 : execStmt (limMeths now) (env.set "last_time" (pint tl)) j2 =
+      .ok (.next (((env.set "last_time" (pint tl)).set "self.burst_time" (.list ((xs ++ [natSc tl]) ++ [natSc now]))).set
+        "self.burst_bitcount" (.list (ys ++ [natSc bits])))) := by
+    unfold j2
+    rw [ite_step1 _ _ _ _ _ _ hc, decide_eq_true hold, if_pos rfl]
+    exact newB_run now _ bits _ _ (by simp [set_get, h1]) (by simp [set_get, h2]) (by simp [set_get, h3]) (by simp [set_get, h4])
+  unfold i4
+  rw [ite_step1 _ _ _ _ _ false (eval_ec_concat now env _ _ h3), if_neg (by simp), cons_next1 ej, cons_next1 e2]
+  rfl
+
+/-- `else:` branch, the last slot is recent: its count grows -/
+theorem i4_add (now : Nat) (env : Env) (bits tl bl : Nat) (xs ys : List Sc) (h1 : env "t" = some (pint now))
+    (h2 : env "bytelen" = some (pint bits)) (h3 : env "self.burst_time" = some (.list (xs ++ [natSc tl])))
+    (h4 : env "self.burst_bitcount" = some (.list (ys ++ [natSc bl]))) (h5 : env "self.TIME_SLOT_LENGTH" = some (pint slotNs))
+    (hold : ¬ now - tl > slotNs) :
+    execStmt (limMeths now) env i4 =
+      .ok (.next ((env.set "last_time" (pint tl)).set "self.burst_bitcount" (.list (ys ++ [natSc (bl + bits)])))) := by
+  have ej : execStmt (limMeths now) env j1 = .ok (.next (env.set "last_time" (pint tl))) := stmt_j1 now env _ _ h3
+  have hc := eval_sc now tl (env.set "last_time" (pint tl)) (by simp [set_get, h1]) (by simp [set_get]) (by simp [set_get, h5])
+  have e2 : execStmt (limMeths now) (env.set "last_time" (pint tl)) j2 =
+      .ok (.next ((env.set "last_time" (pint tl)).set "self.burst_bitcount" (.list (ys ++ [natSc (bl + bits)])))) := by
+    unfold j2
+    rw [ite_step1 _ _ _ _ _ _ hc, decide_eq_false hold, if_neg (by simp)]
+    exact addB_run now _ bits bl _ (by simp [set_get, h2]) (by simp [set_get, h4])
+  unfold i4
+  rw [ite_step1 _ _ _ _ _ false (eval_ec_concat now env _ _ h3), if_neg (by simp), cons_next1 ej, cons_next1 e2]
+  rfl
+
+/-- the body of `if self.enabled:` on an enabled limiter (no well-formedness needed: the total only grows) -/
+theorem onB_run (sl : List (Nat × Nat)) (bt w now d : Nat) (env : Env) (hs : ShowsZ env true sl bt w)
+    (hd : env "datalen" = some (pint d)) :
+    ∃ env', execBlock (limMeths now) env onB = .ok (.next env') ∧
+      ShowsZ env' true (Limiter.addToLast now (d * 8) sl) ((bt + d * 8 : Nat) : Int) w ∧
+      ∀ k, k ∉ informKeys → env' k = env k := by
+  let env3 : Env := ((env.set "bytelen" (pint ((d * 8 : Nat) : Int))).set "t" (pint now)).set "self.bit_total"
+    (pint ((bt + d * 8 : Nat) : Int))
+  have e1 := stmt_i1 now env d hd
+  have e2 := stmt_clock now (env.set "bytelen" (pint ((d * 8 : Nat) : Int)))
+  have e3 : execStmt (limMeths now) ((env.set "bytelen" (pint ((d * 8 : Nat) : Int))).set "t" (pint now)) i3 = .ok (.next env3) :=
+    stmt_i3 now _ bt (d * 8) (by simp [set_get, hs.bitTotal]) (by simp [set_get])
+  have l1 : env3 "t" = some (pint now) := by simp [env3, set_get]
+  have l2 : env3 "bytelen" = some (pint ((d * 8 : Nat) : Int)) := by simp [env3, set_get]
+  have l3 : env3 "self.burst_time" = some (.list (timesOf sl)) := by simp [env3, set_get, hs.times]
+  have l4 : env3 "self.burst_bitcount" = some (.list (countsOf sl)) := by simp [env3, set_get, hs.counts]
+  have l5 : env3 "self.TIME_SLOT_LENGTH" = some (pint slotNs) := by simp [env3, set_get, hs.slot]
+  have hfr3 : ∀ k, k ∉ informKeys → env3 k = env k := by
+    intro k hk
+    simp only [informKeys, List.mem_cons, List.not_mem_nil, or_false, not_or] at hk
+    simp [env3, set_get, hk]
+  have hsh3 : env3 "self.enabled" = some (pbool true) ∧ env3 "self.bit_total" = some (pint ((bt + d * 8 : Nat) : Int)) ∧
+      env3 "self.window_size_sec" = some (pint w) := by
+    refine ⟨?_, ?_, ?_⟩ <;> simp [env3, set_get, hs.enabled, hs.window]
+  -- it is enough to run the last statement from `env3`
+  suffices h : ∃ env', execStmt (limMeths now) env3 i4 = .ok (.next env') ∧
+      env' "self.burst_time" = some (.list (timesOf (Limiter.addToLast now (d * 8) sl))) ∧
+      env' "self.burst_bitcount" = some (.list (countsOf (Limiter.addToLast now (d * 8) sl))) ∧
+      ∀ k, k ≠ "last_time" → k ≠ "self.burst_time" → k ≠ "self.burst_bitcount" → env' k = env3 k by
+    obtain ⟨env', h1, h2, h3, h4⟩ := h
+    refine ⟨env', ?_, ?_, ?_⟩
+    · unfold onB
+      rw [cons_next1 e1, cons_next1 e2, cons_next1 e3, cons_next1 h1]
+      rfl
+    · exact ⟨by rw [h4 _ (by decide) (by decide) (by decide)]; exact hsh3.1,
+        by rw [h4 _ (by decide) (by decide) (by decide)]; exact hsh3.2.1, h2, h3,
+        by rw [h4 _ (by decide) (by decide) (by decide)]; exact hsh3.2.2,
+        by rw [h4 _ (by decide) (by decide) (by decide)]; exact l5⟩
+    · intro k hk
+      have hk' := hk
+      simp only [informKeys, List.mem_cons, List.not_mem_nil, or_false, not_or] at hk'
+      rw [h4 k hk'.2.2.1 hk'.2.2.2.2.1 hk'.2.2.2.2.2, hfr3 k hk]
+  rcases List.eq_nil_or_concat sl with rfl | ⟨init, ⟨tl, bl⟩, rfl⟩
+  · -- no slot yet: a new one
+    refine ⟨_, i4_nil now env3 (d * 8) _ l1 l2 l3 l4, ?_, ?_, ?_⟩
+    · simp [set_get, Limiter.addToLast, timesOf]
+    · simp [set_get, Limiter.addToLast, countsOf]
+    · intro k _ hk2 hk3; simp [set_get, hk2, hk3]
+  · -- the last slot is `(tl, bl)`
+    simp only [List.concat_eq_append] at l3 l4 ⊢
+    have l3' : env3 "self.burst_time" = some (.list (timesOf init ++ [natSc tl])) := by rw [l3, timesOf_append]; rfl
+    have l4' : env3 "self.burst_bitcount" = some (.list (countsOf init ++ [natSc bl])) := by rw [l4, countsOf_append]; rfl
+    rw [addToLast_concat]
+    by_cases hold : now - tl > slotNs
+    · -- older than a time slot: a new one
+      refine ⟨_, i4_new now env3 (d * 8) tl _ _ l1 l2 l3' l4' l5 hold, ?_, ?_, ?_⟩
+      · simp [hold, set_get, timesOf, countsOf]
+      · simp [hold, set_get, timesOf, countsOf]
+      · intro k hk1 hk2 hk3; simp [set_get, hk1, hk2, hk3]
+    · -- same time slot: its count grows
+      refine ⟨_, i4_add now env3 (d * 8) tl bl _ _ l1 l2 l3' l4' l5 hold, ?_, ?_, ?_⟩
+      · simp [hold, set_get, timesOf, l3']
+      · simp [hold, set_get, countsOf]
+      · intro k hk1 _ hk3; simp [set_get, hk1, hk3]
+
+/-- the model's `inform`, field by field -/
+theorem inform_fields (l : Limiter) (now d : Nat) :
+    (l.inform now d).enabled = l.enabled ∧
+    (l.inform now d).slots = (if l.enabled then Limiter.addToLast now (d * 8) l.slots else l.slots) ∧
+    (l.inform now d).bitTotal = (if l.enabled then l.bitTotal + d * 8 else l.bitTotal) := by
+  cases he : l.enabled <;> simp [Limiter.inform, he]
+
+/-- **`RateLimiter.inform_byte_sent` agrees with `Limiter.inform`** (first semantics): for EVERY limiter `l` (no well-formedness), window
+    `w`, clock value `now`, `datalen`, and every environment that shows `l` and binds `datalen`, the call returns `None` in an environment
+    that shows `l.inform now datalen`; only the names of `informKeys` may have changed (none of them on a disabled limiter). -/
+theorem inform_byte_sent_agrees (l : Limiter) (w now datalen : Nat) (env : Env) (hs : Shows env l w)
+    (hd : env "datalen" = some (pint datalen)) :
+    ∃ env', runFn (limMeths now) env Src.RateLimiter_inform_byte_sent = .ok (pnone, env') ∧
+      Shows env' (l.inform now datalen) w ∧ (∀ k, k ∉ informKeys → env' k = env k) ∧ (l.enabled = false → env' = env) := by
+  obtain ⟨f1, f2, f3⟩ := inform_fields l now datalen
+  have hc : eval (limMeths now) env (.var "self.enabled") = .ok (pbool l.enabled) := by simp only [eval, hs.enabled]
+  unfold Shows at hs ⊢
+  rw [f1, f2, f3]
+  cases he : l.enabled with
+  | false =>
+    rw [he] at hs hc
+    refine ⟨env, ?_, ?_, fun _ _ => rfl, fun _ => rfl⟩
+    · unfold runFn
+      rw [inform_src, cons_next1 (env' := env) (by rw [ite_step1 _ _ _ _ _ _ hc]; rfl)]
+      rfl
+    · simpa using hs
+  | true =>
+    rw [he] at hs hc
+    obtain ⟨env', h1, h2, h3⟩ := onB_run l.slots l.bitTotal w now datalen env hs hd
+    refine ⟨env', ?_, ?_, h3, fun h => by cases h⟩
+    · unfold runFn
+      rw [inform_src, cons_next1 (env' := env') (by rw [ite_step1 _ _ _ _ _ _ hc, if_pos rfl]; exact h1)]
+      rfl
+    · simpa using h2
+
+theorem inform_shape : loopFreeB Src.RateLimiter_inform_byte_sent = true ∧ dumperShapeB Src.RateLimiter_inform_byte_sent = true ∧
+    depthB Src.RateLimiter_inform_byte_sent = 13 := ⟨rfl, rfl, rfl⟩
+
+/-- the same in the second semantics (through the bridge `run2_eq_runFn`: the body is loop-free) -/
+theorem inform_byte_sent_agrees_run2 (l : Limiter) (w now datalen : Nat) (env : Env) (n : Nat) (hs : Shows env l w)
+    (hd : env "datalen" = some (pint datalen)) (hn : 13 ≤ n) :
+    ∃ env', run2 n (limMeths now) env Src.RateLimiter_inform_byte_sent = .ok (.ret pnone env') ∧
+      Shows env' (l.inform now datalen) w ∧ (∀ k, k ∉ informKeys → env' k = env k) ∧ (l.enabled = false → env' = env) := by
+  obtain ⟨env', h1, h2⟩ := inform_byte_sent_agrees l w now datalen env hs hd
+  exact ⟨env', run2_eq_runFn _ _ n env env' pnone inform_shape.1 inform_shape.2.1 (by rw [inform_shape.2.2]; exact hn) h1, h2⟩
+
+/-! ## 5. the hypotheses are satisfiable; concrete runs -/
+
+/-- an environment that shows `l` and binds what the two methods read besides -/
+def limEnv (l : Limiter) (w b datalen : Nat) : Env := fun k =>
+  match k with
+  | "self.enabled" => some (pbool l.enabled)
+  | "self.bit_total" => some (pint l.bitTotal)
+  | "self.burst_time" => some (.list (timesOf l.slots))
+  | "self.burst_bitcount" => some (.list (countsOf l.slots))
+  | "self.window_size_sec" => some (pint w)
+  | "self.TIME_SLOT_LENGTH" => some (pint slotNs)
+  | "self.mean_bitrate" => some (pint b)
+  | "datalen" => some (pint datalen)
+  | _ => none
+
+theorem limEnv_shows (l : Limiter) (w b datalen : Nat) : Shows (limEnv l w b datalen) l w := ⟨rfl, rfl, rfl, rfl, rfl, rfl⟩
+
+/-- `update_agrees` applies to every well-formed limiter -/
+example (l : Limiter) (w now b : Nat) (h : l.WF) :
+    ∃ env', run2 (l.slots.length + 11) (limMeths now) (limEnv l w b 0) Src.RateLimiter_update = .ok (.ret pnone env') ∧
+      Shows env' (l.update w now) w := by
+  obtain ⟨env', h1, h2, -⟩ := update_agrees l w now b (limEnv l w b 0) _ (limEnv_shows l w b 0) (fun _ => rfl) h (Nat.le_refl _)
+  exact ⟨env', h1, h2⟩
+
+/-- `inform_byte_sent_agrees` applies to every limiter -/
+example (l : Limiter) (w now d : Nat) :
+    ∃ env', runFn (limMeths now) (limEnv l w 0 d) Src.RateLimiter_inform_byte_sent = .ok (pnone, env') ∧
+      Shows env' (l.inform now d) w := by
+  obtain ⟨env', h1, h2, -⟩ := inform_byte_sent_agrees l w now d (limEnv l w 0 d) (limEnv_shows l w 0 d) rfl
+  exact ⟨env', h1, h2⟩
+
+/-- the well-formedness hypothesis holds of every state reached from the initial limiter by the three operations -/
+example (w now d : Nat) : ((({} : Limiter).inform now d).update w (now + 1)).reset.WF :=
+  wf_reset _
+
+example (w now d : Nat) : ((({ enabled := true } : Limiter).inform now d).update w (now + 1)).WF :=
+  wf_update _ w (now + 1) (wf_inform _ now d wf_init)
+
+/-- a concrete `update`: two expired slots are dropped, the loop `break`s on the third (window 50, clock 100) -/
+theorem update_example :
+    let l : Limiter := { enabled := true, slots := [(10, 8), (20, 16), (95, 24)], bitTotal := 48 }
+    l.WF ∧ l.update 50 100 = { enabled := true, slots := [(95, 24)], bitTotal := 24 } ∧
+    ∃ env', run2 14 (limMeths 100) (limEnv l 50 0 0) Src.RateLimiter_update = .ok (.ret pnone env') ∧
+      env' "self.burst_time" = some (.list [natSc 95]) ∧ env' "self.burst_bitcount" = some (.list [natSc 24]) ∧
+      env' "self.bit_total" = some (pint 24) ∧ env' "t2" = some (pint 95) := by
+  intro l
+  have hwf : l.WF := by simp [l, Limiter.WF]
+  have hu : l.update 50 100 = { enabled := true, slots := [(95, 24)], bitTotal := 24 } := by decide
+  refine ⟨hwf, hu, ?_⟩
+  obtain ⟨env', h1, h2, -⟩ := update_agrees l 50 100 0 (limEnv l 50 0 0) 14 (limEnv_shows l 50 0 0) (fun _ => rfl) hwf (by decide)
+  rw [hu] at h2
+  refine ⟨env', h1, h2.times, h2.counts, h2.bitTotal, ?_⟩
+  -- `t2` is the head the loop stopped at: read it off the run itself
+  have hrun : run2 14 (limMeths 100) (limEnv l 50 0 0) Src.RateLimiter_update =
+      .ok (.ret pnone ((popEnv (popEnv ((limEnv l 50 0 0).set "t" (pint 100)) 10 8 [(20, 16), (95, 24)] 48) 20 16 [(95, 24)] 40).set
+        "t2" (pint 95))) := rfl
+  rw [hrun] at h1
+  injection h1 with h1
+  injection h1 with _ h1
+  rw [← h1]
+  rfl
+
+/-- fuel: with every slot expired, `|slots| + 10` units are what the run needs (the theorem asks for one more) -/
+theorem update_fuel :
+    let l : Limiter := { enabled := true, slots := [(10, 8), (20, 16)], bitTotal := 24 }
+    run2 11 (limMeths 100) (limEnv l 50 0 0) Src.RateLimiter_update = .error .outOfFuel ∧
+    ∃ env', run2 12 (limMeths 100) (limEnv l 50 0 0) Src.RateLimiter_update = .ok (.ret pnone env') ∧
+      env' "self.burst_time" = some (.list []) ∧ env' "self.bit_total" = some (pint 0) :=
+  ⟨rfl, _, rfl, rfl, rfl⟩
+
+/-- a concrete `inform_byte_sent` in each of the three branches (clock in ns, `slotNs = 5000000`) -/
+theorem inform_example :
+    let l0 : Limiter := { enabled := true }
+    let l1 := l0.inform 1000 7            -- empty list: a new slot
+    let l2 := l1.inform 2000 1            -- same time slot: the count grows
+    let l3 := l2.inform 6000000 2         -- more than 5 ms later: a new slot
+    l1 = { enabled := true, slots := [(1000, 56)], bitTotal := 56 } ∧
+    l2 = { enabled := true, slots := [(1000, 64)], bitTotal := 64 } ∧
+    l3 = { enabled := true, slots := [(1000, 64), (6000000, 16)], bitTotal := 80 } ∧
+    (∃ env', runFn (limMeths 6000000) (limEnv l2 0 0 2) Src.RateLimiter_inform_byte_sent = .ok (pnone, env') ∧
+      env' "self.burst_time" = some (.list [natSc 1000, natSc 6000000]) ∧
+      env' "self.burst_bitcount" = some (.list [natSc 64, natSc 16]) ∧ env' "self.bit_total" = some (pint 80)) := by
+  intro l0 l1 l2 l3
+  have e1 : l1 = { enabled := true, slots := [(1000, 56)], bitTotal := 56 } := by decide
+  have e2 : l2 = { enabled := true, slots := [(1000, 64)], bitTotal := 64 } := by decide
+  have e3 : l3 = { enabled := true, slots := [(1000, 64), (6000000, 16)], bitTotal := 80 } := by decide
+  refine ⟨e1, e2, e3, ?_⟩
+  obtain ⟨env', h1, h2, -⟩ := inform_byte_sent_agrees l2 0 6000000 2 (limEnv l2 0 0 2) (limEnv_shows l2 0 0 2) rfl
+  have e3' : l2.inform 6000000 2 = { enabled := true, slots := [(1000, 64), (6000000, 16)], bitTotal := 80 } := e3
+  rw [e3'] at h2
+  exact ⟨env', h1, h2.times, h2.counts, h2.bitTotal⟩
+
 end Isotp.PyAgree.Lim
+
+#print axioms Isotp.PyAgree.Lim.addToLast_concat
+#print axioms Isotp.PyAgree.Lim.addToLast_getLast
+#print axioms Isotp.PyAgree.Lim.expire_suffix
+#print axioms Isotp.PyAgree.Lim.wf_default
+#print axioms Isotp.PyAgree.Lim.wf_reset
+#print axioms Isotp.PyAgree.Lim.wf_update
+#print axioms Isotp.PyAgree.Lim.wf_inform
+#print axioms Isotp.PyAgree.Lim.sub_gt_cast
+#print axioms Isotp.PyAgree.Lim.reset_run
+#print axioms Isotp.PyAgree.Lim.loop_run
+#print axioms Isotp.PyAgree.Lim.update_run
+#print axioms Isotp.PyAgree.Lim.update_agrees
+#print axioms Isotp.PyAgree.Lim.update_drops_expired
+#print axioms Isotp.PyAgree.Lim.update_needs_WF
+#print axioms Isotp.PyAgree.Lim.onB_run
+#print axioms Isotp.PyAgree.Lim.inform_byte_sent_agrees
+#print axioms Isotp.PyAgree.Lim.inform_byte_sent_agrees_run2
+#print axioms Isotp.PyAgree.Lim.update_example
+#print axioms Isotp.PyAgree.Lim.update_fuel
+#print axioms Isotp.PyAgree.Lim.inform_example
